@@ -512,3 +512,36 @@ Definition inv_b (c : cfg) (s : st) : bool :=
     (N.of_nat (length T) <=? used s)
   | _, _, _ => false
   end.
+
+(* ---------------------------------------------------------------------------------------- *)
+(* running a history; observation of a state (used by the replay driver and the Examples)     *)
+(* ---------------------------------------------------------------------------------------- *)
+Fixpoint run (c : cfg) (s : st) (ops : list op) : res (st * list (option N * list N)) :=
+  match ops with
+  | [] => Ok (s, [])
+  | o :: tl =>
+    match step c s o with
+    | Ok (s1, r, e) =>
+      match run c s1 tl with
+      | Ok (s2, out) => Ok (s2, (r, e) :: out)
+      | Undef => Undef
+      | OutOfFuel => OutOfFuel
+      end
+    | Undef => Undef
+    | OutOfFuel => OutOfFuel
+    end
+  end.
+
+(* (capacity, used, free, local_free, thread_free) with the lists as the allocator would walk them *)
+Definition obs (c : cfg) (s : st) : N * N * res (list N * list N) * res (list N * list N) * res (list N * list N) :=
+  (cap s, used s, walk (walk_fuel s) c (mem s) (free s), walk (walk_fuel s) c (mem s) (lfree s),
+   walk (walk_fuel s) c (mem s) (tfree s)).
+
+Definition run_obs (c : cfg) (s : st) (ops : list op) :=
+  match run c s ops with
+  | Ok (s', out) => Some (out, obs c s')
+  | _ => None
+  end.
+
+(* a block memory given by the bytes that matter: first word, trailer (canary, delta) and fill *)
+Definition empty_mem : N -> blk := fun _ _ => 0.
